@@ -564,22 +564,78 @@ func runHist(line, field string) core.Outcome {
 		}
 		steps = append(steps, st)
 	}
-	reset()
 	var o core.Outcome
 	tags := map[string]bool{}
-	var outs []string
+	outs, status := playHist(steps, &o, tags)
+	o.Impl = strings.Join(outs, ";")
+
+	// ---- two-run relation: a rejected request changes nothing that any later request can see.
+	// Replay the history with the first rejected write (preferring one that was rejected after
+	// the mutation: by the apps or by the indexer) replaced by a request that cannot touch
+	// anything (HEAD -> 405) and compare every other answer.
+	rej := -1
+	for i, st := range steps {
+		if st.m == "G" || st.m == "H" || i >= len(outs) || status[i] == 200 {
+			continue
+		}
+		late := strings.HasPrefix(outs[i], "F500:load") || strings.HasPrefix(outs[i], "F500:index")
+		if rej < 0 || (late && !strings.HasPrefix(outs[rej], "F500:load") && !strings.HasPrefix(outs[rej], "F500:index")) {
+			rej = i
+		}
+	}
+	if rej >= 0 && len(outs) == len(steps) {
+		steps2 := append([]step{}, steps...)
+		steps2[rej] = step{m: "H", path: steps[rej].path, body: "-", ifm: "-"}
+		var o2 core.Outcome
+		outs2, _ := playHist(steps2, &o2, map[string]bool{})
+		tags["two-run"] = true
+		for i := range outs {
+			if i == rej || i >= len(outs2) || outs[i] == outs2[i] {
+				continue
+			}
+			class := "rejected-request-visible-later"
+			for j := 0; j < rej; j++ {
+				if steps[j].m == "D" && strings.Trim(steps[j].path, "/") == "config" && status[j] == 200 {
+					class = "rejected-request-recreates-deleted-config-key"
+				}
+			}
+			o.Failures = append(o.Failures, core.Failure{Class: class,
+				What: fmt.Sprintf("step %d (%s %s) was rejected (%s); with that request left out, step %d (%s %s) answers %q instead of %q",
+					rej, methodName[steps[rej].m], steps[rej].path, strings.SplitN(outs[rej], "/", 2)[0], i, methodName[steps[i].m], steps[i].path,
+					strings.SplitN(outs2[i], "/", 2)[0], strings.SplitN(outs[i], "/", 2)[0])})
+			break
+		}
+	}
+
+	for t := range tags {
+		o.Tags = append(o.Tags, t)
+	}
+	sort.Strings(o.Tags)
+	if len(steps) < 2 {
+		o.Tags = append(o.Tags, "trivial")
+	}
+	for i := range o.Failures {
+		o.Failures[i].Case = line
+	}
+	return o
+}
+
+// playHist runs a history from a fresh state; returns the per-step answers and HTTP statuses.
+func playHist(steps []step, o *core.Outcome, tags map[string]bool) (outs []string, status []int) {
+	reset()
 	var etags []etagRec
 	prev, pf := observe()
 	o.Failures = append(o.Failures, pf...)
 	for i, st := range steps {
 		hdr, ref, refPath := st.header(etags)
 		var pre *response
-		if ref != nil && st.m != "G" && st.m != "H" {
+		if ref != nil && st.m != "G" && st.m != "H" && strings.HasPrefix(refPath, "/config/") {
 			// what is at the ETag's path right now? (oracle for the If-Match clause)
 			r := get(refPath)
 			pre = &r
 		}
 		r := do(methodName[st.m], st.path, st.bodyBytes(), st.headers(hdr))
+		status = append(status, r.status)
 		if r.hung {
 			o.Failures = append(o.Failures, core.Failure{Class: "request-hung", What: fmt.Sprintf("step %d did not return within 20s", i)})
 			outs = append(outs, "hung")
@@ -595,7 +651,7 @@ func runHist(line, field string) core.Outcome {
 		}
 		etags = append(etags, rec)
 		tags["m:"+st.m] = true
-		tags["resp:"+strings.SplitN(strings.SplitN(s, "/", 2)[0], ":", 2)[0]+classOf(s)] = true
+		tags["resp:"+strings.SplitN(s, ":", 2)[0]+classOf(s)] = true
 		if st.m == "G" || st.m == "H" {
 			outs = append(outs, s)
 			continue
@@ -606,18 +662,7 @@ func runHist(line, field string) core.Outcome {
 		outs = append(outs, s+"/"+cur.cfgEnc+"/"+cur.ids+"/"+strconv.Itoa(cur.loads)+"/"+cur.saw)
 		prev = cur
 	}
-	o.Impl = strings.Join(outs, ";")
-	for t := range tags {
-		o.Tags = append(o.Tags, t)
-	}
-	sort.Strings(o.Tags)
-	if len(steps) < 2 {
-		o.Tags = append(o.Tags, "trivial")
-	}
-	for i := range o.Failures {
-		o.Failures[i].Case = line
-	}
-	return o
+	return outs, status
 }
 
 func classOf(s string) string {
